@@ -419,7 +419,139 @@ func vRunC14(c *vCase) {
 		c.Violate("c14:subscription-extra", "subscriber to channel %d's prefix received a message with header %v", vW.chanFilter, m[0][:4])
 		return
 	}
+	if c.Idx%8 == 5 && !vPrefixOnlyPass(c) {
+		return
+	}
 	c.Nontrivial()
+}
+
+// vPrefixOnlyPass: a publisher of its own (the code's startSocket on a private port) whose only subscribers filter on channel
+// prefixes; nobody subscribes to everything. While subscriber A listens on the documented 2-byte prefix of channel X, another
+// client subscribes with a longer prefix that begins with the same two bytes and goes away again. A must go on receiving every
+// record of channel X and only those, subscriber C those of channel Y.
+var vPrefixPub struct {
+	once sync.Once
+	ch   chan []*DataRecord
+	port int
+	err  error
+}
+
+func vPrefixOnlyPass(c *vCase) bool {
+	r := c.R
+	e := &vPrefixPub
+	e.once.Do(func() {
+		e.port = vPickPortBase(1)
+		e.ch, e.err = startSocket(e.port, messageRecords)
+	})
+	if e.err != nil {
+		c.Inconclusive("wire-setup", "private publisher: %v", e.err)
+		return false
+	}
+	x, y := 0x0403+r.Intn(200), 0x0907+r.Intn(200)
+	pfx := func(ch int, extra ...byte) string { return string(append([]byte{byte(ch), byte(ch >> 8)}, extra...)) }
+	sub := func(filter string) *zmq4.Socket {
+		s, err := zmq4.NewSocket(zmq4.SUB)
+		if err != nil {
+			return nil
+		}
+		s.SetRcvhwm(0)
+		s.SetRcvtimeo(10 * time.Second)
+		s.SetLinger(0)
+		s.SetSubscribe(filter)
+		if s.Connect(fmt.Sprintf("tcp://127.0.0.1:%d", e.port)) != nil {
+			s.Close()
+			return nil
+		}
+		return s
+	}
+	a, cc := sub(pfx(x)), sub(pfx(y))
+	if a == nil || cc == nil {
+		c.Inconclusive("wire-setup", "private subscribers could not be made")
+		return false
+	}
+	defer a.Close()
+	defer cc.Close()
+	// slow joiner: sentinels on both channels until both subscribers have seen one
+	seenA, seenC := false, false
+	for i := 0; i < 500 && !(seenA && seenC); i++ {
+		e.ch <- []*DataRecord{{channelIndex: x, data: []RawType{0xdead}}, {channelIndex: y, data: []RawType{0xdead}}}
+		time.Sleep(10 * time.Millisecond)
+		for {
+			if _, err := a.RecvMessageBytes(zmq4.DONTWAIT); err != nil {
+				break
+			}
+			seenA = true
+		}
+		for {
+			if _, err := cc.RecvMessageBytes(zmq4.DONTWAIT); err != nil {
+				break
+			}
+			seenC = true
+		}
+	}
+	if !(seenA && seenC) {
+		c.Inconclusive("wire-setup", "private subscribers never received the sentinel")
+		return false
+	}
+	// another client with a longer prefix for channel X comes and goes
+	b := sub(pfx(x, byte(r.Intn(256))))
+	if b == nil {
+		c.Inconclusive("wire-setup", "third private subscriber could not be made")
+		return false
+	}
+	time.Sleep(80 * time.Millisecond)
+	e.ch <- []*DataRecord{{channelIndex: x, data: []RawType{0xdead}}} // (the publisher looks at its subscriptions when it has something to send)
+	time.Sleep(40 * time.Millisecond)
+	b.Close()
+	time.Sleep(120 * time.Millisecond)
+	e.ch <- []*DataRecord{{channelIndex: y, data: []RawType{0xdead}}}
+	time.Sleep(60 * time.Millisecond)
+	for _, s := range []*zmq4.Socket{a, cc} {
+		for {
+			if _, err := s.RecvMessageBytes(zmq4.DONTWAIT); err != nil {
+				break
+			}
+		}
+	}
+	var recX, recY []*DataRecord
+	for i := 0; i < 6; i++ {
+		rec := vGenWireRecord(r, false)
+		if i%2 == 0 {
+			rec.channelIndex = x
+			recX = append(recX, rec)
+		} else {
+			rec.channelIndex = y
+			recY = append(recY, rec)
+		}
+		e.ch <- []*DataRecord{rec}
+	}
+	for k, rec := range recX {
+		m, err := a.RecvMessageBytes(0)
+		if err != nil {
+			c.Violate("c14:subscription-missed", "the subscriber to the 2-byte prefix of channel %d did not receive record %d of %d after another client with a longer prefix of the same channel had come and gone", x, k+1, len(recX))
+			return false
+		}
+		if !vCheckRecordMsg(c, m, rec) {
+			return false
+		}
+	}
+	for k, rec := range recY {
+		m, err := cc.RecvMessageBytes(0)
+		if err != nil {
+			c.Violate("c14:subscription-missed", "the subscriber to the 2-byte prefix of channel %d did not receive record %d of %d", y, k+1, len(recY))
+			return false
+		}
+		if !vCheckRecordMsg(c, m, rec) {
+			return false
+		}
+	}
+	time.Sleep(5 * time.Millisecond)
+	if m, err := a.RecvMessageBytes(zmq4.DONTWAIT); err == nil {
+		c.Violate("c14:subscription-extra", "the subscriber to channel %d's prefix received a further message with header %v", x, m[0][:4])
+		return false
+	}
+	c.Cov("prefix_only_passes", 1)
+	return true
 }
 
 func init() {
